@@ -254,7 +254,8 @@ def replay_concrete(harness, failure, allowed_exceptions=()):
     choices = det.get("choices", {}) if isinstance(det, dict) else {}
     h = ConH(RealMods(), failure["inputs"], choices)
     try:
-        harness(h)
+        with C.concrete_context():
+            harness(h)
     except Abort as e:
         return {"reproduced": False, "detail": f"abort: {e}"}
     except allowed_exceptions as e:  # pragma: no cover
